@@ -14,7 +14,8 @@
 (***************************************************************************)
 EXTENDS PatchOps, Merge7396, Equal, Scanner, JsonText, Json, TLC
 
-CONSTANT TraceFile, Mode       \* Mode: "value" (structural, C01..) | "ordered" (member order and literals, C05)
+CONSTANT TraceFile, Mode,      \* Mode: "value" (structural, C01..) | "ordered" (member order and literals, C05)
+         Dialect               \* "v5" | "v4": the legacy root package claims less (C18), see LegacyDontCare
 
 Trace == ndJsonDeserialize(TraceFile)
 
@@ -31,6 +32,30 @@ TInit == l = 1 /\ doc = Null /\ opts = [neg |-> TRUE, limit |-> 0, allow |-> FAL
 Ev == Trace[l]
 Same(a, b) == IF Mode = "ordered" THEN a = b ELSE JEq(a, b)
 
+(***************************************************************************)
+(* The legacy root package (C18) states less than v5: it does not offer a  *)
+(* root-replacing add or copy from "", compares string SPELLINGS in test,  *)
+(* and only a failed test, a remove/move of an absent location and an      *)
+(* out-of-range index are stated to be errors.  Everything else is outside *)
+(* its stated domain.                                                      *)
+(***************************************************************************)
+LegacyErrLabels == { "TestFail", "TestFailAbsent", "RemoveAbsentMember", "RemoveNoParent", "RemoveBadIndex",
+                     "MoveFromAbsentMember", "MoveFromNoParent", "MoveFromBadIndex", "AddBadIndex", "ReplaceBadIndex",
+                     "TestBadIndex", "CopyFromBadIndex", "CopyOverLimit" }
+AwkwardCp(c) == c \in {60, 62, 38, 34, 92, 8232, 8233} \/ c < 32
+RECURSIVE HasAwkward(_)
+HasAwkward(v) ==
+  CASE v.t = "str" -> \E i \in 1..Len(v.cp) : AwkwardCp(v.cp[i])
+    [] v.t = "arr" -> \E i \in 1..Len(v.e) : HasAwkward(v.e[i])
+    [] v.t = "obj" -> \E i \in 1..Len(v.m) : (\E j \in 1..Len(v.m[i].k) : AwkwardCp(v.m[i].k[j])) \/ HasAwkward(v.m[i].v)
+    [] OTHER -> FALSE
+LegacyDontCare(op, r) ==
+  /\ Dialect = "v4"
+  /\ \/ op.op = "add" /\ op.path = <<>>
+     \/ op.op = "copy" /\ op.from = <<>>
+     \/ op.op = "test" /\ HasAwkward(op.value)
+     \/ r.k = "err" /\ r.lab \notin LegacyErrLabels
+
 Reset ==
   /\ Ev.ev = "Reset"
   /\ doc' = Ev.doc /\ opts' = Ev.opts /\ copied' = [lo |-> 0, hi |-> 0] /\ status' = "run" /\ bad' = ""
@@ -44,7 +69,7 @@ Op ==
        LET a == ApplyOp(doc, Ev.op, opts, copied, NoSz) IN
        /\ UNCHANGED opts
        /\ IF Ev.panic THEN bad' = "the call panicked" /\ UNCHANGED <<doc, copied, status>>
-          ELSE IF a.r.k = "dc" THEN
+          ELSE IF a.r.k = "dc" \/ LegacyDontCare(Ev.op, a.r) THEN
                \* outside the stated domain: nothing is asserted and the trace ends here
                bad' = "" /\ status' = "dc" /\ UNCHANGED <<doc, copied>>
           ELSE IF Ev.decode THEN bad' = "DecodePatch rejected a well-formed patch" /\ UNCHANGED <<doc, copied, status>>
@@ -58,6 +83,7 @@ Op ==
                /\ status' = "stopped" /\ UNCHANGED <<doc, copied>>
                /\ bad' = IF Ev.ok THEN "the reference rejects the operation, the library succeeded"
                          ELSE IF ~Ev.outnil THEN "a failing Apply returned a document"
+                         ELSE IF Dialect = "v4" THEN ""            \* C18 states "reported as errors", no class
                          ELSE IF (a.r.cls = "TestFailed") # Ev.errc.test THEN "errors.Is(err, ErrTestFailed) does not match the failure"
                          ELSE IF (a.r.cls = "CopyLimit") # Ev.errc.copy THEN "*AccumulatedCopySizeError does not match the failure"
                          ELSE IF a.r.cls = "Missing" /\ ~Ev.errc.missing THEN "errors.Is(err, ErrMissing) is false for an absent member / unreachable parent"
